@@ -595,7 +595,9 @@ def run_rng_property(prop, tier):
                                "expected": "fresh, non-zero, full-size values; 0 scan hits", "observed": json.dumps(evj)[:300], "trace": path, "event": evj})
         elif "Model checking completed. No error has been found." not in o:
             raise ToolError("TLC failed on randomness trace: " + o[-1500:])
-        traces.append({"procs": procs, "threads": threads, "iters": iters, "events": n, "accepted": m is None})
+        slots = [json.loads(x) for x in open(path) if '"op":"Slots"' in x]
+        traces.append({"procs": procs, "threads": threads, "iters": iters, "events": n, "accepted": m is None,
+                       "drift_consumption_map": {"artefacts": len(slots), "as_specified": sum(1 for x in slots if x["match"])}})
         if ci == 0:
             with open(path) as f:
                 samples = [json.loads(next(f)) for _ in range(4)]
